@@ -932,6 +932,9 @@ func (x *Exec) mapGetIn(st *State, h *HeapView, mv Value, k string) Value {
 	mk, kk, vt := mapKeys(mv.Ty)
 	ksort := scalarSort(kk)
 	vk := kindOf(vt)
+	if vk == VSlice {
+		return x.mapSliceVal(st, h, mk, mv, ksort, vt, k)
+	}
 	if vk >= VSlice {
 		st.unsupported("map_get of aggregate value")
 	}
